@@ -307,7 +307,7 @@ func orNone(s string) string {
 // same term under AND/OR/NOT, where the reducers pass an expr.Column, is scoped to the column.
 func ruleCTORCOLUMN(c *Ctx, r *Report) {
 	const rule = "CTOR-COLUMN"
-	r.doc(rule, "in the general constructor every call of the leaf classifier by content (the function the JSON decoder uses too) whose argument can be the raw left operand is reached with that raw value only over edges that exclude `a string under the Equals operator` (the column wrapping came first); and the column wrapper answers a string with Lit(Column(s)) on every path")
+	r.doc(rule, "in the general constructor every call of the leaf classifier by content (the function the JSON decoder uses too) whose argument can be the raw left operand is reached with that raw value only over edges that exclude `a string under the Equals operator` (the column wrapping came first); and the column wrapper answers a string with Lit(Column(s)) on every path, s being the operand itself and not a value computed from it")
 	general := c.pkgFunc(pkgExpr, "Expr")
 	cls := c.leafClassifier()
 	if general == nil || cls == nil {
@@ -447,6 +447,15 @@ func ruleCTORCOLUMN(c *Ctx, r *Report) {
 					ops := c.ctorOperator(rc.Call.StaticCallee())
 					ak := c.key(rc.Call.Args[0], ve)
 					good = len(ops) == 1 && ops[0] == "expr.Literal" && strings.HasPrefix(ak, "conv:expr.Column(") && strings.Contains(ak, "$0")
+					if good {
+						// the name itself: the converted value is the operand (read through its type assertion), not
+						// something computed from it (a trimmed, cut or case-folded name is another column)
+						inner := strings.TrimSuffix(strings.TrimPrefix(ak, "conv:expr.Column("), ")")
+						inner = strings.ReplaceAll(inner, ".(string)", "")
+						if !strings.HasPrefix(inner, "$0") || strings.ContainsAny(inner, "()+") {
+							good = false
+						}
+					}
 				}
 				key := "wrapper|" + fnName(h) + "|string"
 				if good {
